@@ -112,6 +112,8 @@ class Interp:
                 self.env[l] = ("variant", a["variant"], ops)
             elif a.get("kind") == "tuple":
                 self.env[l] = ("tuple", ops)
+            elif a.get("kind") == "closure":
+                self.env[l] = ("closure", ops)   # a nested closure (`.or_else(|| ..)`): its captures, read through the spliced body
             elif a.get("kind") == "adt" and a.get("adt", "").startswith("std::ops::Range"):
                 self.env[l] = ("range", ops)
             else:
